@@ -28,6 +28,15 @@ type sigMarker struct {
 	variant  int         // distinguishes byte-different copies that verify alike (RCD-e recovery byte)
 }
 
+// sprMarker: the third external id of a staking record made by vrt.MakeSPR (public key ||
+// signature): which test key signed which content.
+type sprMarker struct {
+	version int64
+	height  *sym.Term
+	signer  int
+	content interface{}
+}
+
 const fpkg = "github.com/Factom-Asset-Tokens/factom"
 
 func (in *Interp) contentIdentity(v Value) interface{} {
@@ -92,6 +101,55 @@ func registerSigModel(ex *Explorer) {
 		return nil
 	}
 	I[vrtPath+".SealEntry"] = func(in *Interp, fn *ssa.Function, a []Value) Value { return nil }
+	// vrt.MakeSPR(e *factom.Entry, version uint8, height int32, declared []byte, signer int, coinbase string)
+	I[vrtPath+".MakeSPR"] = func(in *Interp, fn *ssa.Function, a []Value) Value {
+		ec := a[0].(*Cell)
+		ev := in.load(ec).(*StructVal)
+		ver := in.Concretize(a[1].(*sym.Term))
+		m := &sprMarker{version: ver, height: a[2].(*sym.Term), signer: int(in.Concretize(a[4].(*sym.Term)))}
+		content := in.newBlob("spr", nil, nil)
+		m.content = content.Ext
+		declared := a[3].(SliceVal)
+		db, ok := in.sliceBytes(declared)
+		if !ok {
+			in.fail("unsupported", "MakeSPR: symbolic declared id")
+		}
+		nv := &StructVal{F: append([]Value{}, ev.F...)}
+		u8 := types.Typ[types.Uint8]
+		ids := []Value{in.bytesToSlice([]byte{byte(ver)}, u8), in.bytesToSlice(db, u8), SliceVal{Ext: m}}
+		et := ec.T.Underlying().(*types.Struct).Field(3).Type().Underlying().(*types.Slice).Elem()
+		nv.F[3] = in.sliceFrom(et, ids)
+		nv.F[4] = content
+		in.storeInto(ec, ec.T, nv)
+		return nil
+	}
+	// vrt.ValidateSPR(version uint8, height int32, entryhash []byte, extids [][]byte, content []byte) bool:
+	// ideal model of graderStake.ValidateS2/S3 for versions 6 and 7
+	I[vrtPath+".ValidateSPR"] = func(in *Interp, fn *ssa.Function, a []Value) Value {
+		f := in.F
+		ver := in.Concretize(a[0].(*sym.Term))
+		if ver != 6 && ver != 7 {
+			in.fail("unsupported", "ValidateSPR: only grader versions 6 and 7 are modelled")
+		}
+		ext := a[3].(SliceVal)
+		if ext.Len != 3 {
+			return f.False
+		}
+		v0, ok := in.sliceBytes(in.sget(ext, 0).(SliceVal))
+		if !ok || len(v0) != 1 || int64(v0[0]) != ver {
+			return f.False
+		}
+		sigv, _ := in.sget(ext, 2).(SliceVal)
+		m, ok := sigv.Ext.(*sprMarker)
+		if !ok {
+			return f.False // arbitrary bytes: not a signature under ideal crypto
+		}
+		cv, _ := a[4].(SliceVal)
+		if cv.Ext != m.content {
+			return f.False
+		}
+		return f.Eq(m.height, a[1].(*sym.Term))
+	}
 	// vrt.MalleateSig(e *factom.Entry): a third party alters the last byte of the first
 	// signature. For an ed25519 (RCD-1) signature that destroys it; for an RCD-e signature the
 	// library verifies sig[:64] only ("ignore recovery byte"), so the altered entry - different
